@@ -652,6 +652,16 @@ func (x *Exec) authMsg(p *peer, in Input) wamp.Message {
 		a, kw := payload("notauth")
 		return &wamp.Publish{Request: 1, Options: wamp.Dict{"acknowledge": true}, Topic: "a.b", Arguments: a, ArgumentsKw: kw}
 	}
+	if r.Kind == "empty" {
+		// made without any secret: HMAC under the empty key, the empty ticket, an all-zero signature
+		switch p.chMethod {
+		case "wampcra":
+			return &wamp.Authenticate{Signature: crsign.SignChallenge(p.challenge, nil), Extra: wamp.Dict{}}
+		case "cryptosign":
+			return &wamp.Authenticate{Signature: hex.EncodeToString(make([]byte, 96)), Extra: wamp.Dict{}}
+		}
+		return &wamp.Authenticate{Signature: "", Extra: wamp.Dict{}}
+	}
 	chal := p.challenge
 	if r.Ch != "" && r.Ch != p.name {
 		chal = ""
